@@ -243,6 +243,49 @@ def check(prop, tier):
                           f"{sched} thread {t} does not emit its baseline "
                           f"stream (reproduced in a fresh interpreter: {same})",
                           rp)
+    # ------------------------------------------------------------ (b3)
+    # three threads (thorough only): all ordered triples over five members of
+    # the sub-alphabet, preemption bound 2
+    if tier != "quick":
+        tri = [0, 2, 3, 4, 8]
+        triples = [(i, j, k) for i in tri for j in tri for k in tri]
+
+        def worker_t(tr):
+            cf = [full[x] for x in tr]
+            ln = [lens[x] for x in tr]
+            nexec = 0
+            nev = 0
+            bad = None
+            for sch in I.schedules([l + 1 for l in ln], 2):
+                r = I.run_schedule(cf, ln, sch)
+                nexec += 1
+                nev += len(sch)
+                for t, y in enumerate(tr):
+                    if r[t][0] != base[y]["stream"] or \
+                            r[t][1] != base[y]["error"]:
+                        bad = bad or (list(sch), t)
+                if bad:
+                    break
+            return (tr, nexec, nev, bad)
+        ntri = 0
+        for tr, nexec, nev, bad in common.pmap_dynamic(worker_t, triples):
+            ntri += nexec
+            res.add(evaluations=nexec, states=nexec, transitions=nev,
+                    traces_validated_against_impl=3 * nexec)
+            if bad:
+                sched, t = bad
+                cf = [full[x] for x in tr]
+                rp = common.write_replay(prop, "interleaving3", {
+                    "property": prop, "kind": "c15_interleave",
+                    "cfgs": [c.as_json() for c in cf],
+                    "lengths": [lens[x] for x in tr], "schedule": sched,
+                    "thread": t})
+                res.violation({"code": "interleaving_dependent",
+                               "cls": cf[t].cls},
+                              f"three threads {[repr(c) for c in cf]}: under "
+                              f"schedule {sched} thread {t} does not emit its "
+                              "baseline stream", rp)
+        res.counters["interleaved_executions_three_threads"] = ntri
     res.counters["interleaved_executions"] = nexec_tot
     res.counters["preemption_bound"] = P
     # vacuity: pairs that share memo keys
@@ -403,7 +446,8 @@ def replay(prop, payload):
         cfgs = [D.Config.from_json(c) for c in payload["cfgs"]]
         base = I.baselines(cfgs)
         r = I.fresh_run(cfgs, payload["lengths"], [payload["schedule"]])
-        bad = any(list(r[t][0]) != base[t]["stream"] for t in (0, 1))
+        bad = any(list(r[t][0]) != base[t]["stream"]
+                  for t in range(len(cfgs)))
     elif k == "c15_seq":
         m = fresh_seq_many([([tuple(h) for h in payload["history"]],
                              payload["observed"])])[0]
